@@ -8,6 +8,9 @@ git merge --no-ff --no-commit "$b" || true
 for f in MANIFEST.json known_findings.json; do
   if git ls-files -u -- "$f" | grep -q .; then git checkout --ours -- "$f" 2>/dev/null || true; fi
 done
+for f in $(git ls-files -u | awk '{print $4}' | sort -u); do
+  case "$f" in MANIFEST.json|known_findings.json) ;; *) python3 tools/resolve_trivial.py "$f" && git add "$f" || true;; esac
+done
 python3 tools/mkmanifest.py
 git add MANIFEST.json known_findings.json
 if git ls-files -u | grep -q .; then
